@@ -118,6 +118,17 @@ pub fn c11_libm_fma_specials() {
     reached();
 }
 
+/// The crate's own fma wrapper in the no_std configuration, reached through new_mul (lo = fma(a, b, -p)):
+/// exact product against the integer oracle. Run with cfg=nostd (real libm::fma code path of the crate).
+pub fn nostd_new_mul_exact(ea: i32, eb: i32) {
+    crate::c02::eft_mul_cell(ea, eb)
+}
+
+/// TwoFloat * f64 in the no_std configuration on a cell (fma with a non-trivial addend), M free bits
+pub fn nostd_mul_f64_cell(d: i32, kx: i32, m: u32) {
+    crate::c04::mul_f64_cell(0, d, kx, m)
+}
+
 // ------------------------------------------------------------------------------------ twin
 
 //@ id=C11 tier=quick to=900 cfg=std kind=twin desc="twin: an unfused x*y+z must be refuted by the correctly-rounded-fma oracle"
